@@ -91,12 +91,14 @@ def work_1d(item):
             return 'exception %s: %s' % (type(e).__name__, e)
         finally:
             numenv.enable()
-        scale = max([1.0] + [abs(float(v)) for v in uvals])
+        scale = max([abs(float(v)) for v in uvals]) or 1.0          # relative to the data magnitude (tiny data included)
         if err > 1e-8 * scale or wrap > 0:
             return 'interpolant misses its data by %.3g (wrap mismatch %.3g)' % (err, wrap)
         return None
 
-    for ctx, (kind, val) in symx.explore(body, timeout_ms=30000, index_cap=64):
+    for ctx, (kind, val) in symx.explore(body, timeout_ms=30000, index_cap=64, maxpaths=3000):
+        if res['violations']:
+            break            # one confirmed witness per space is enough; do not walk the remaining paths
         if kind == 'abort':
             if val.inconclusive:
                 res['inconclusive'].append('abort %s %r' % (val.why, item[:6]))
@@ -204,7 +206,9 @@ def work_2d(item):
         cross = sp.eval(numenv.karr([symx.fval(x) for x in p1]), numenv.karr([symx.fval(y) for y in p2]))
         return U, vals, cross, sp.coeffs, (B1.nbasis, B2.nbasis)
 
-    for ctx, (kind, val) in symx.explore(body, timeout_ms=60000, index_cap=64):
+    for ctx, (kind, val) in symx.explore(body, timeout_ms=60000, index_cap=64, maxpaths=300):
+        if res['violations']:
+            break
         if kind != 'ok':
             if kind == 'abort' and not val.inconclusive:
                 continue
@@ -262,8 +266,8 @@ def replay_2d(m, item, Uv):
         return 'exception %s: %s' % (type(e).__name__, e)
     finally:
         numenv.enable()
-    if err > 1e-8 * max(1.0, float(np.max(np.abs(U)))):
-        return '2-D interpolant misses its data by %.3g' % err
+    if err > 1e-8 * (float(np.max(np.abs(U))) or 1.0):
+        return '2-D interpolant misses its data by %.3g (data magnitude %.3g)' % (err, float(np.max(np.abs(U))))
     return None
 
 
@@ -297,7 +301,8 @@ def configs(tier):
     if tier == 'quick':
         c2 += [((3, True, 'uniform', 4), (3, False, 'uniform', 2), 'cu', None),
                ((2, True, 'graded', 3), (3, False, 'irregular', 2), 'nu', None),
-               ((1, False, 'irregular', 2), (2, True, 'uniform', 3), 'nu', None)]
+               ((1, False, 'irregular', 2), (2, True, 'uniform', 3), 'nu', None),
+               ((2, False, 'irregular', 2), (3, True, 'graded', 4), 'nu', None)]      # second direction periodic, different degrees >= 2
     else:
         for da, db in itertools.product([1, 2, 3, 4, 5], repeat=2):
             c2.append(((da, True, 'graded', da + 1), (db, False, 'irregular', 2), 'nu', None))
